@@ -44,6 +44,20 @@ Theorem C15_safe_if_ahead_follower : forall d v l,
 Proof. exact safe_if_ahead_follower. Qed.
 Print Assumptions C15_safe_if_ahead_follower.
 
+(* later reads, and refused requests: after any requests of the new leader a read at its committed revision
+   still sees the newest version of every key; the header of a Succeeded=false response is above every
+   stored revision as well *)
+Theorem C15_reads_see_latest : forall d v os,
+  WF d -> dmax d <= v ->
+  let '(d', n', _) := run_ops d v os in list_at d' n' = list_latest d'.
+Proof. exact reads_see_latest. Qed.
+Print Assumptions C15_reads_see_latest.
+
+Theorem C15_refused_header_above : forall d n o,
+  Good d n -> h_class (d_res (do_op d n o)) = HCond -> dmax d < h_rev (d_res (do_op d n o)).
+Proof. exact refused_header_above. Qed.
+Print Assumptions C15_refused_header_above.
+
 (* well-formedness of the stored records needs no hypothesis on revisions: every request keeps it *)
 Theorem C15_wf_preserved : forall d n o, WF d -> WF (d_store (do_op d n o)).
 Proof. exact do_op_wf. Qed.
@@ -72,13 +86,23 @@ Print Assumptions C15_elect_version.
 (* clock_ahead_env_statement e (Proofs/Handover.v): for every world w with Good (w_data w) b, every history os
    served from base b, every election at environment readings t1,t2 with b + |os| <= t2 that acquires v:
    v = t2, dmax <= v and Good holds for the new leader. *)
-Theorem C15_clock_ahead_memkv : clock_ahead_env_statement EMem.
+Theorem C15_clock_ahead_memkv_under_rate_hyp : clock_ahead_env_statement EMem.
 Proof. exact clock_ahead_memkv. Qed.
-Print Assumptions C15_clock_ahead_memkv.
+Print Assumptions C15_clock_ahead_memkv_under_rate_hyp.
 
-Theorem C15_clock_ahead_tikv : clock_ahead_env_statement ETikv.
+Theorem C15_clock_ahead_tikv_under_rate_hyp : clock_ahead_env_statement ETikv.
 Proof. exact clock_ahead_tikv. Qed.
-Print Assumptions C15_clock_ahead_tikv.
+Print Assumptions C15_clock_ahead_tikv_under_rate_hyp.
+
+(* Two different propositions, named apart: clock_ahead_env_statement e carries the rate hypothesis
+   b + attempts <= t2 and is what holds for the environment clocks; clock_ahead e (Proofs/C15Cases.v) is the
+   unconditional statement "whatever the history, the elected new leader's base is at or above every stored
+   revision". The unconditional one is refuted for Badger (finding C15-F1, below) AND for memkv — a wall
+   clock that does not advance is no better; on memkv/TiKV the hypothesis is evaluated on every hand-over of
+   every generated case (c15_validb), on Badger nothing can make it true. *)
+Theorem C15_clock_ahead_env_refuted_without_rate_hyp : ~ clock_ahead EMem.
+Proof. exact clock_ahead_env_refuted_without_rate_hyp. Qed.
+Print Assumptions C15_clock_ahead_env_refuted_without_rate_hyp.
 
 (* Badger: the clock is the number of committed read-write transactions. The full-strength
    statement "for every history the elected new leader's base is at or above every stored revision"
@@ -100,16 +124,11 @@ Theorem C15_F1_witness :
 Proof. exact f1_witness. Qed.
 Print Assumptions C15_F1_witness.
 
-(* the complement of the finding: outside the signature "engine = Badger and stored maximum >
-   hand-over timestamp" — with the rate hypothesis for the environment clocks — the hand-over is
-   safe in the sense of C15_safe_if_ahead *)
-Theorem C15_safe_except_F1 : forall (e : engine) d v,
-  WF d ->
-  ~ (e = EBadger /\ v < dmax d) ->
-  (e <> EBadger -> dmax d <= v) ->
-  Good d v /\ list_at d v = list_latest d.
-Proof. exact safe_except_F1. Qed.
-Print Assumptions C15_safe_except_F1.
+(* the complement of the finding in engine terms: on every engine other than Badger the statement under
+   the rate hypothesis holds (for a fixed data state and version this is just C15_safe_if_ahead) *)
+Theorem C15_clock_ahead_except_badger : forall e, e <> EBadger -> clock_ahead_env_statement e.
+Proof. exact clock_ahead_env_all. Qed.
+Print Assumptions C15_clock_ahead_except_badger.
 
 (* and Badger is fine when every attempt of the old leader commits (no failed writes): the
    transaction counter then advances as fast as the revision counter *)
@@ -141,6 +160,14 @@ Print Assumptions C15_oracle_sound.
    the node is above it — hence, with C15_safe_if_ahead, above every stored revision whenever the
    parsed version is. (The order is load-bearing: the thorough-tier Campaign case of the driver
    polls IsLeader() while the callback is delayed and catches a swapped order on the real code.) *)
+(* (nstep encodes leader.go's order — parse, SetCurrentRevision, flag — in its guards, so this theorem is
+   about that order; the order itself is tied to the code by the Campaign cases (camp_check). That it is
+   load-bearing: C15_flag_order_needed, on the same callback with the flag raised first.) *)
+Theorem C15_flag_order_needed :
+  exists ls r v, In (Some r) (snd (nrun_swapped node0 ls)) /\ n_pc (fst (nrun_swapped node0 ls)) = CbLeading v /\ r <= v.
+Proof. exact flag_order_needed. Qed.
+Print Assumptions C15_flag_order_needed.
+
 Theorem C15_flag_after_install : forall ls,
   let '(x, os) := nrun node0 ls in
   (n_flag x = true -> exists v, n_pc x = CbLeading v /\ v <= deal (n_lead x)) /\
@@ -157,6 +184,35 @@ Print Assumptions C15_flag_after_install.
 Theorem C15_committed_follows : forall ls, committed_ok (fst (nrun node0 ls)).
 Proof. exact committed_follows. Qed.
 Print Assumptions C15_committed_follows.
+
+(* Validity is decidable and the shards evaluate it on every case: c15_checkv = validity && agreement
+   with the model. What a green run therefore establishes for each script case, with no Prop-level
+   hypothesis left: *)
+Theorem C15_validb_sound : forall c, c15_validb c = true -> c15_valid c.
+Proof. exact c15_validb_sound. Qed.
+Print Assumptions C15_validb_sound.
+
+Theorem C15_checkv_sound : forall c, c15_checkv c = true ->
+  c15_oracle c = None \/ (c15_oracle c = Some 1 /\ c_engine c = EBadger).
+Proof. exact c15_checkv_sound. Qed.
+Print Assumptions C15_checkv_sound.
+
+(* The runs of the real leader.NewLeaderElection(...).Campaign() (plain, timestamp outage, follower read
+   lost, follower read answered late) are cases too: the harness's event order as labels of the callback
+   model. If the model reproduces what was observed (revisions handed out, final committed revision,
+   installed version; the clock reading at or above the stored maximum), the observations satisfy the
+   property: every revision handed out exceeds the stored maximum and the read revision has not fallen
+   below the installed version. *)
+Theorem C15_campaign_sound : forall k, camp_check k = true -> camp_oracle k = None.
+Proof. exact camp_oracle_sound. Qed.
+Print Assumptions C15_campaign_sound.
+
+(* every case kind the driver emits *)
+Theorem C15_any_sound : forall c, c15_any_check c = true ->
+  c15_any_oracle c = None \/
+  (c15_any_oracle c = Some 1 /\ match c with KScript s => c_engine s = EBadger | KCampaign _ => False end).
+Proof. exact c15_any_sound. Qed.
+Print Assumptions C15_any_sound.
 
 (* the oracle reports code 1 only on Badger (and then only when the base is behind, by its definition) *)
 Theorem C15_oracle_code : forall c k, c15_oracle c = Some k -> k = 0 \/ (k = 1 /\ c_engine c = EBadger).
@@ -229,3 +285,56 @@ Proof. vm_compute. reflexivity. Qed.
 Example C15_F2_regression :
   n_lead (fst (nrun node0 [NSyncCheck; NParse 100; NInstall; NFlag; NSyncInstall 50])) = mkL 100 100.
 Proof. vm_compute. reflexivity. Qed.
+
+(* campaign cases: the late-answer run as the model predicts it is accepted; a run whose read revision
+   fell back (what the code did before the repair of C15-F2) or that handed out a low revision is rejected *)
+Definition camp_late : camp_case :=
+  mkCamp 100 90 [NSyncCheck; NParse 100; NInstall; NFlag; NRequest; NRequest; NSyncInstall 50; NRequest]
+         [None; None; None; None; Some 101; Some 102; None; Some 103] 103.
+Example C15_campaign_inhabited : camp_check camp_late = true /\ camp_oracle camp_late = None.
+Proof. vm_compute. split; reflexivity. Qed.
+Example C15_campaign_rejects :
+  camp_oracle (mkCamp 100 90 [NParse 100; NInstall; NFlag; NRequest] [None; None; None; Some 101] 50) = Some 0 /\
+  camp_oracle (mkCamp 100 90 [NFlag; NRequest; NParse 100; NInstall] [None; Some 1; None; None] 100) = Some 0.
+Proof. vm_compute. split; reflexivity. Qed.
+(* validity evaluates to true on the scripts of C15_valid_inhabited_* and to false when a stopped leader writes again *)
+Example C15_validb_evaluates :
+  c15_validb (mkC15 EMem (model_script EMem mstate0 (ex_acts 100 112))) = true /\
+  c15_validb (mkC15 EMem (model_script EMem mstate0 (ex_acts 100 112 ++ [AOp 1 (HCreate [99] [1])]))) = false.
+Proof. vm_compute. split; reflexivity. Qed.
+
+(* hypotheses of C15_max_stored / C15_elect_version / C15_safe_if_ahead_follower / C15_clock_ahead_badger_all_commit
+   on concrete states *)
+Example C15_max_stored_inhabited :
+  Good [] 1 /\ (let '(d', n', _) := run_ops [] 1 f1_history in n' = 13 /\ dmax d' = 13).
+Proof. split; [constructor|vm_compute; split; reflexivity]. Qed.
+Example C15_elect_version_inhabited :
+  exists w' p' g wr, elect EBadger world0 proc0 idA recA recA 0 0 = (w', p', EAcquired 1, g, wr).
+Proof. eexists _, _, _, _. vm_compute. reflexivity. Qed.
+Example C15_follower_inhabited :
+  WF d_ex /\ dmax d_ex <= 9 /\ deal (mkL 8 8) <= 9 /\ committed (mkL 8 8) <= 9 /\ set_current (mkL 8 8) 9 = mkL 9 9.
+Proof.
+  split; [exact (proj1 C15_hyp_inhabited)|]. vm_compute. repeat split; discriminate.
+Qed.
+Example C15_badger_all_commit_inhabited :
+  let w := fst (fst (fst (fst (elect EBadger world0 proc0 idA recA recA 0 0)))) in
+  Good (w_data w) (w_commits w) /\
+  (let '(w1, _, rs) := serve_all w (mkP cand0 (mkL (w_commits w) (w_commits w))) [HCreate ka [1]; HCreate kb [2]] in
+   Forall (fun r => h_class r = HOk) rs /\
+   exists w' p' g wr, elect EBadger w1 proc0 idB recB recB 0 0 = (w', p', EAcquired 4, g, wr)).
+Proof.
+  split; [vm_compute; constructor|]. vm_compute. split; [repeat constructor|]. eexists _, _, _, _. reflexivity.
+Qed.
+
+(* clause (c) after the first request: a List(0) that no longer shows an untouched live key of the dump is rejected;
+   one that shows it (and whatever the leader wrote itself) is accepted *)
+Example C15_oracle_list_after_request :
+  c15_oracle (mkC15 EMem
+    [(AElect 2 idB recB recB 9 9 false, OElect (EAcquired 9) ROk ROk d_ex (Some recB));
+     (AOp 2 (HCreate [99] [1]), OOp (mkRes HOk 10));
+     (AList 2, OList 10 [([99], [1], 10)])]) = Some 0 /\
+  c15_oracle (mkC15 EMem
+    [(AElect 2 idB recB recB 9 9 false, OElect (EAcquired 9) ROk ROk d_ex (Some recB));
+     (AOp 2 (HCreate [99] [1]), OOp (mkRes HOk 10));
+     (AList 2, OList 10 [([97], [2], 7); ([99], [1], 10)])]) = None.
+Proof. vm_compute. split; reflexivity. Qed.
